@@ -382,6 +382,65 @@ func TestCheck(t *testing.T) {
 			}
 		}
 	}
+	// every identity multihash with a payload of 0..2 bytes, requested the way
+	// the find client does (base58). Some of these base58 strings are also
+	// well-formed hex strings (base58 has every hex digit except 0): all of
+	// those are requested, and of the others every payload of <=1 byte and every
+	// 16th of the rest. The base58 reading is the one that must be served.
+	isHex := func(s string) bool {
+		_, err := hex.DecodeString(s)
+		return err == nil
+	}
+	ambiguousKeys := 0
+	for n := 0; n <= 2; n++ {
+		for v := 0; v < 1<<(8*n); v++ {
+			payload := make([]byte, n)
+			for i := 0; i < n; i++ {
+				payload[i] = byte(v >> (8 * (n - 1 - i)))
+			}
+			m, err := multihash.Encode(payload, multihash.IDENTITY)
+			if err != nil {
+				panic(err)
+			}
+			b58 := multihash.Multihash(m).B58String()
+			switch {
+			case isHex(b58):
+				ambiguousKeys++
+				keyCases = append(keyCases, keyCase{"b58-also-hex-identity", "/multihash/" + b58, m, cid.Undef})
+			case n <= 1 || v%16 == 0:
+				keyCases = append(keyCases, keyCase{"b58-short-identity", "/multihash/" + b58, m, cid.Undef})
+			}
+		}
+	}
+	// the same from the other side: every string of length 2 and 4 over the 21
+	// characters that are both hex and base58 digits whose base58 decoding is a
+	// well-formed multihash (any code, consistent length)
+	const both = "123456789ABCDEFabcdef"
+	var strs []string
+	for _, a := range both {
+		for _, b := range both {
+			strs = append(strs, string([]rune{a, b}))
+			for _, c := range both {
+				for _, d := range both {
+					strs = append(strs, string([]rune{a, b, c, d}))
+				}
+			}
+		}
+	}
+	for _, str := range strs {
+		m, err := multihash.FromB58String(str)
+		if err != nil {
+			continue
+		}
+		if _, err := multihash.Decode(m); err != nil {
+			continue
+		}
+		ambiguousKeys++
+		keyCases = append(keyCases, keyCase{"b58-also-hex", "/multihash/" + str, m, cid.Undef})
+	}
+	if i, _ := r.Shard(); i == 0 {
+		r.Count("base58_keys_that_are_also_hex", int64(ambiguousKeys))
+	}
 	for i, kc := range keyCases {
 		key := fmt.Sprintf("key|%s|%d", kc.label, i)
 		if !r.Mine(key) {
